@@ -10,17 +10,17 @@ import (
 // Op is an abstract operation of an alphabet; Prepare resolves it against the
 // current model state into a concrete Call (or reports that it is not enabled).
 type Op struct {
-	K     string
-	Topic string
-	Sub   string
-	Keys  []string // pub: ordering key per message
-	Attrs []int    // pub: attribute preset per message
-	Max   int      // pull / sweep
-	Sel   string   // ack id selector
-	D     time.Duration
-	Tgt   string // seek / tick target
-	Name  string // snapshot
-	Job   string
+	K      string
+	Topic  string
+	Sub    string
+	Keys   []string // pub: ordering key per message
+	Attrs  []int    // pub: attribute preset per message
+	Max    int      // pull / sweep
+	Sel    string   // ack id selector
+	D      time.Duration
+	Tgt    string // seek / tick target
+	Name   string // snapshot
+	Job    string
 	MinAge time.Duration
 	MaxDel int
 }
@@ -352,4 +352,3 @@ func (m *Model) Prepare(op Op, now time.Time) (Call, bool) {
 	}
 	panic("unknown op " + op.K)
 }
-
